@@ -51,6 +51,38 @@ CMPOPS = {ast.Gt: "gt", ast.GtE: "ge", ast.Lt: "lt", ast.LtE: "le", ast.Eq: "eq"
 # ----------------------------------------------------------------------------- encoder: Python ast -> wire
 
 
+_entry_facts = None
+
+
+def entry_facts_of_repo():
+    global _entry_facts
+    if _entry_facts is None:
+        import ast as _ast
+
+        from translate import c06 as T6
+        from vlib.framework import REPO
+
+        try:
+            _entry_facts = T6.entry_facts(_ast.parse((REPO / "src" / "mxlpy" / "meta" / "source_tools.py").read_text()))
+        except Exception:  # noqa: BLE001  outside the recognised shape: the obligation is broken anyway; encode as repaired
+            _entry_facts = (True, True)
+    return _entry_facts
+
+
+def find_def(tree, fn):
+    """the `def` a function object was made from: module-level or nested (factories, decorators), by name and first line"""
+    import inspect
+
+    raw = inspect.unwrap(fn)
+    code = getattr(raw, "__code__", None)
+    cands = [n for n in ast.walk(tree) if isinstance(n, ast.FunctionDef) and n.name == getattr(raw, "__name__", None)]
+    if not cands:
+        return None
+    if code is None:
+        return cands[0]
+    return min(cands, key=lambda n: abs(min([n.lineno, *[d.lineno for d in n.decorator_list]]) - code.co_firstlineno))
+
+
 class Encoder:
     """Encodes a function and every user function its calls can reach.  Call targets and module-level constants
     are resolved with Python's own scoping (module namespace), not with the code under test."""
@@ -68,6 +100,7 @@ class Encoder:
         self.features: set[str] = set()
 
     helpers_of = None
+    n_pre = 0
     stmt_classes: list = []
     ret_class = None
     cb: list = []
@@ -81,7 +114,7 @@ class Encoder:
             tree = ast.parse(Path(f).read_text())
         except (OSError, SyntaxError):
             return False
-        return any(isinstance(n, ast.FunctionDef) and n.name == fn.__name__ for n in tree.body)
+        return find_def(tree, fn) is not None
 
     def qual(self, fn) -> str:
         return f"{fn.__module__}:{fn.__name__}"
@@ -96,10 +129,45 @@ class Encoder:
         mod = sys.modules[fn.__module__]
         src = Path(mod.__file__).read_text()
         tree = ast.parse(src)
-        node = next(n for n in tree.body if isinstance(n, ast.FunctionDef) and n.name == fn.__name__)
+        import inspect
+
+        node = find_def(tree, fn)
         a = node.args
         params = [x.arg for x in [*a.posonlyargs, *a.args]]
         other = bool(a.vararg or a.kwonlyargs or a.kwarg)
+        # a decorator that wraps (functools.wraps): inspect.getsource reads the wrapped function -> refused
+        wrapped = inspect.unwrap(fn) is not fn
+        # free variables: numbers are bound like function-local constants (they shadow module constants of the same name);
+        # anything else is refused
+        closure_items, closure_bad = [], False
+        code, cells = getattr(fn, "__code__", None), getattr(fn, "__closure__", None)
+        if code is not None and cells:
+            self.features.add("closure")
+            for nm, cell in zip(code.co_freevars, cells):
+                try:
+                    val = cell.cell_contents
+                except ValueError:
+                    closure_bad = True
+                    continue
+                item = self.gval(val)
+                if item[0] in ("flt", "int"):
+                    closure_items.append([nm, item])
+                elif item[0] == "special":
+                    closure_items.append([nm, ["flt", item[2]]])
+                    self.features.add("closure_special_const")
+                else:
+                    closure_bad = True
+        if wrapped:
+            self.features.add("wrapped")
+        if closure_bad:
+            self.features.add("closure_non_number")
+        # what the CURRENT source does with them (facts read by translate/c06.py): without the repairs a wrapped
+        # function is translated from the wrapped function's body and free variables fall back to module constants
+        wr_refused, cl_cells = entry_facts_of_repo()
+        if not wr_refused:
+            wrapped = False
+        if not cl_cells:
+            closure_items, closure_bad = [], False
         if a.posonlyargs:
             self.features.add("sig_posonly")
         if other:
@@ -107,19 +175,24 @@ class Encoder:
         self.prog[q] = {}  # placeholder (recursion guard)
         glob: dict[str, list] = {}
         local = (set(params) | {x.arg for x in a.kwonlyargs} | {x.arg for x in (a.vararg, a.kwarg) if x}
-                 | assigned_names(node.body))
+                 | assigned_names(node.body) | {nm for nm, _ in closure_items})
         self.paths = used_paths(node)
         body = [self.stmt(s, mod, local, glob) for s in node.body]
+        if closure_items:
+            body = [["import", closure_items], *body]
+        if wrapped or closure_bad:
+            body = [["opaque"], *body]
         self.prog[q] = {"name": q, "params": params, "body": body, "globals": [[k, v] for k, v in glob.items()],
                         "nposonly": len(a.posonlyargs), "otherparams": other}
         if outermost:
+            self.n_pre = len(body) - len(node.body)  # statements the encoder put in front (closure bindings / refusal)
             # the function asked for (not its callees): the real helpers on the (branch, rest) pairs `_handle_fn_body` meets
             self.stmt_classes = [type(s).__name__ for s in node.body]
             ret = [s for s in node.body if not (isinstance(s, ast.Pass) or (isinstance(s, ast.Expr) and isinstance(s.value, ast.Constant)))]
             self.ret_class = (type(ret[0].value).__name__ if len(node.body) <= 2 and len(ret) == 1 and isinstance(ret[0], ast.Return)
                               and ret[0].value is not None and (len(node.body) == 1 or ret[0] is node.body[1]) else None)
             self.cb = []
-            self._branch_pairs(node.body, body)
+            self._branch_pairs(node.body, body[self.n_pre:])
         return q
 
     def _branch_pairs(self, nodes, enc):
@@ -1066,6 +1139,14 @@ class Gen:
                 tgt = r.choice(LOCAL_POOL) if r.random() < 0.75 or not vs else r.choice(vs)
                 if r.random() < 0.03:
                     tgt = "K1"  # a local that shadows a module constant
+                if r.random() < 0.08 and vs:
+                    # chained assignment: every target is (re-)bound, names bound before among them, in any position
+                    tgts = [tgt] + r.sample(vs, min(len(vs), r.choice([1, 1, 2])))
+                    r.shuffle(tgts)
+                    tgts = list(dict.fromkeys(tgts))
+                    lines.append(f"{pad}{' = '.join(tgts)} = {self.arith(vs, 2)}")
+                    vs += [t for t in tgts if t not in vs]
+                    continue
                 lines.append(f"{pad}{tgt} = {self.arith(vs, 2)}")
                 if tgt not in vs:
                     vs.append(tgt)
@@ -1295,6 +1376,19 @@ def t_chain(x):
     return y
 
 
+def t_chain_first(x):
+    z = x
+    z = y = 2 * x
+    return z + y
+
+
+def t_chain_rebind3(x, y):
+    a = x
+    b = y
+    a = c = b = x * y + 1
+    return a + 2 * b + 4 * c
+
+
 def t_chain3(x, y):
     t = u = x = y * 2
     return t + u - x + y
@@ -1522,6 +1616,126 @@ def branch_import_sources() -> list[str]:
     return out
 
 
+# functions that are not plain module-level `def`s: closures made by factories, decorated functions, partials, lambdas, nested
+# defs, calls into them, calls that rely on default values.  Every one is either translated soundly or refused.
+CLOSURE_TEMPLATES = '''
+import functools
+
+
+def _mk_shadow(K2):
+    def c_closure_shadow(x):
+        return x * K2 + K1          # K2: the closed-over ARGUMENT (3.0), not the module's K2 = 0.5; K1: the module constant
+    return c_closure_shadow
+
+
+c_closure_shadow = _mk_shadow(3.0)
+
+
+def _mk_fresh(factor, n):
+    def c_closure_fresh(x, y):
+        if x > factor:
+            return y * n
+        return y + factor
+    return c_closure_fresh
+
+
+c_closure_fresh = _mk_fresh(2.5, 4)
+
+
+def _mk_fn(f):
+    def c_closure_fn(x):
+        return f(x, 2.0)
+    return c_closure_fn
+
+
+c_closure_fn = _mk_fn(hmul)
+
+
+def _mk_two(HD):
+    def c_closure_param(HD_, x):
+        return HD * x - HD_         # closes over HD (8.0 here; the module imports HD = 4.0 from the helper)
+    return c_closure_param
+
+
+c_closure_param = _mk_two(8.0)
+
+
+def _twice(f):
+    @functools.wraps(f)
+    def w(*a):
+        return 2 * f(*a)
+    return w
+
+
+@_twice
+def c_decorated_wraps(x):
+    return x + 1
+
+
+def _ident(f):
+    return f
+
+
+@_ident
+def c_decorated_same(x):
+    return x + K1
+
+
+def _nowrap(f):
+    def c_decorated_nowrap(x):
+        return 2 * f(x)
+    return c_decorated_nowrap
+
+
+@_nowrap
+def c_deco_inner(x):
+    return x + 1
+
+
+c_partial = functools.partial(hmul, 2.0)
+c_lambda = lambda x: x * K1  # noqa: E731
+
+
+def c_uses_lambda(x):
+    g = lambda y: y * 2  # noqa: E731
+    return g(x)
+
+
+def c_uses_partial(x):
+    return c_partial(x)
+
+
+def c_uses_module_lambda(x):
+    return c_lambda(x) + 1
+
+
+def c_nested_def(x):
+    def h(y):
+        return y * 3
+    return h(x)
+
+
+def c_call_closure(x):
+    return c_closure_shadow(x) + 1
+
+
+def c_call_decorated(x):
+    return c_decorated_wraps(x) - 1
+
+
+def c_call_default(x):
+    return hp.hone(x) + hp.hdef(x)
+
+
+def c_default_own(x, k=2.0):
+    return x * k
+'''
+
+CLOSURE_NAMES = ["c_closure_shadow", "c_closure_fresh", "c_closure_fn", "c_closure_param", "c_decorated_wraps",
+                 "c_decorated_same", "c_deco_inner", "c_uses_lambda", "c_uses_partial", "c_uses_module_lambda", "c_nested_def",
+                 "c_call_closure", "c_call_decorated", "c_call_default", "c_default_own"]
+
+
 def template_names() -> list[str]:
     return [n.name for n in ast.parse(TEMPLATES).body if isinstance(n, ast.FunctionDef)]
 
@@ -1688,8 +1902,9 @@ def _observe_all(job, mod, gen_modules, rng, fns, sympy):
             out.append({"fn": fname, "error": f"encode: {e!r}"})
             continue
         params = enc.prog[q]["params"]
-        fsrc = ast.get_source_segment(job["sources"][job["mod"]], next(
-            n for n in ast.parse(job["sources"][job["mod"]]).body if isinstance(n, ast.FunctionDef) and n.name == fname)) or ""
+        _tree = ast.parse(job["sources"][job["mod"]])
+        _node = next((n for n in _tree.body if isinstance(n, ast.FunctionDef) and n.name == fname), None) or find_def(_tree, fn)
+        fsrc = ast.get_source_segment(job["sources"][job["mod"]], _node) or ""
         lits = literals_of(fsrc)
         points = job.get("points", {}).get(fname) or make_points(rng, len(params), lits, job["npoints"])
         points = [[Fraction(v) for v in p] for p in points]
@@ -1728,8 +1943,9 @@ def _observe_all(job, mod, gen_modules, rng, fns, sympy):
             obs.append(rec)
         needed = {k.split(":", 1)[1] for k in enc.prog if k.split(":", 1)[0] == job["mod"]}
         out.append({"fn": fname, "q": q, "prog": list(enc.prog.values()), "params": params, "features": sorted(enc.features),
-                    "cb": enc.cb, "stmt_classes": enc.stmt_classes, "ret_class": enc.ret_class,
-                    "min_src": fsrc if job.get("external") else minimal_source(job["sources"][job["mod"]], needed),
+                    "cb": enc.cb, "stmt_classes": enc.stmt_classes, "ret_class": enc.ret_class, "n_pre": enc.n_pre,
+                    "min_src": (fsrc if job.get("external") else job["sources"][job["mod"]] if job.get("whole")
+                                else minimal_source(job["sources"][job["mod"]], needed)),
                     "points": [[rs(v) for v in p] for p in points], "py": pyv, "obs": obs, "src": fsrc})
     return out
 
